@@ -112,7 +112,8 @@ Next == WEnter \/ WWake(FALSE) \/ WWake(TRUE) \/ Expire \/ (\E s \in Sigs : SSte
 
 Spec == Init /\ [][Next]_vars /\ WF_vars(WEnter) /\ WF_vars(WWake(FALSE))
 \* the deadline is far in the future: it never fires
-SpecNoExpire == Init /\ [][Next /\ ~expired']_vars /\ WF_vars(WEnter) /\ WF_vars(WWake(FALSE))
+NextNoExpire == WEnter \/ WWake(FALSE) \/ WWake(TRUE) \/ (\E s \in Sigs : SStep(s))     \* Next without Expire (named, so that TLC reports per-action coverage)
+SpecNoExpire == Init /\ [][NextNoExpire]_vars /\ WF_vars(WEnter) /\ WF_vars(WWake(FALSE))
 
 --------------------------------------------------------------------------------
 \* C12: no lost wake-up. A parked waiter whose predicate holds has a notification pending
